@@ -175,6 +175,7 @@ def ob_range():
         check(eq(x in a, decide(bt_any(ma))), '__contains__ means membership')
         r = a.intersect(b)
         check(eq(member(x, r), sym_and(ma, mb)), 'intersect is set intersection')
+        check(eq(member(x, a), ma) and eq(member(x, b), mb), 'intersect leaves its operands alone (ranges are shared between if-blocks)')
         al = a.always(b)
         if al is True:
             check(sym_implies(ma, mb), 'always()==True: every member of self satisfies inner'); cover('always-true')
@@ -202,6 +203,36 @@ def ob_checks(nchecks, lv, lx):
         for c, s_ in zip(checks, sat):
             if not c.startswith('!='):
                 check(sym_implies(inr, s_), 'a version in the range satisfies every non-!= check')
+        cover('done')
+    return h
+
+
+def ob_checks_start(nchecks, lv, lx, AB='0123456789ab.'):
+    """version_check_to_range with an explicit start range (the project's meson_version range, itself built from two checks), as the if-block narrowing of the
+    interpreter calls it: the result is sound relative to start AND the checks, and the caller's start range is the same set afterwards - it is used again for
+    the next if-block"""
+    def h():
+        SOPS = ['>=', '>', '<=', '<']          # the start range: bounds (equalities and != add nothing to what the one-range obligations cover)
+        first = [SOPS[choose(4, 'sop%d' % i)] + sym_str(lv, 'sv%d' % i, alphabet=AB) for i in range(2)]
+        start = U.version_check_to_range(first)
+        checks = [OPS[choose(len(OPS), 'op%d' % i)] + sym_str(lv, 'v%d' % i, alphabet=AB) for i in range(nchecks)]
+        x = sym_str(lx, 'x', alphabet=AB)
+        X = U.Version(x)
+        in_start = X in start
+        rng = U.version_check_to_range(checks, start)
+        check(eq(X in start, in_start), 'the start range passed in denotes the same set of versions after the call')
+        sat = [U.version_compare(x, c) for c in checks]
+        inr = X in rng
+        allsat = in_start
+        for s_ in sat: allsat = sym_and(allsat, s_)
+        check(sym_implies(allsat, inr), 'a version in start satisfying every check lies in the narrowed range')
+        check(sym_implies(inr, in_start), 'the narrowed range lies within start')
+        for c, s_ in zip(checks, sat):
+            if not c.startswith('!='):
+                check(sym_implies(inr, s_), 'a version in the narrowed range satisfies every non-!= check')
+        if len(AB) > 6:
+            rng2 = U.version_check_to_range(checks, start)
+            check(eq(X in rng2, inr), 'narrowing the same start by the same checks again gives the same set')
         cover('done')
     return h
 
@@ -243,5 +274,7 @@ def obligations(tier):
     for n in (1, 2) if tier == 'quick' else (1, 2, 3):
         lv = 2 if (n == 1 or (n == 2 and tier == 'thorough')) else 1
         out.append(Obligation('check-to-range[%d]' % n, ob_checks(n, lv, 2), dict(checks=n, version_len=lv, x_len=2, alphabet='0-9ab.'), labels=('done',), max_paths=5000000))
+    for n in (1,) if tier == 'quick' else (1, 2):
+        out.append(Obligation('check-to-range-start[%d]' % n, ob_checks_start(n, 1, 1 if tier == 'quick' else 2, '019a.' if tier == 'quick' else '0123456789ab.'), dict(start='built from 2 checks', checks=n, version_len=1, x_len=1 if tier == 'quick' else 2, alphabet='019a.' if tier == 'quick' else '0-9ab.'), labels=('done',), max_paths=5000000))
     out.append(Obligation('condition-with-min', ob_condmin(2, 2, 2), dict(lens=2, alphabet='0-9ab.'), labels=('true', 'false')))
     return out
